@@ -54,27 +54,40 @@ class _Sub:
 
 # ------------------------------------------------------------------ 1. model checking + emission
 
-def mc_consts(nres, maxmem=0, outer=0, inner=0, arity=0, arity_from=1, held=False, handlers=0):
+def mc_consts(nres, maxmem=0, outer=0, inner=0, arities=(), held=False, handlers=0):
     """handlers: 0 no custom-SetupHandler leaves, 1 included, 2 only shapes containing one"""
-    return {"NRes": nres, "MaxMem": maxmem, "MaxOuter": outer, "MaxInner": inner, "ArityFrom": arity_from,
-            "Arity": arity, "Held": "TRUE" if held else "FALSE", "Handlers": handlers}
+    return {"NRes": nres, "MaxMem": maxmem, "MaxOuter": outer, "MaxInner": inner,
+            "Arities": "{" + ",".join(str(a) for a in sorted(arities)) + "}",
+            "Held": "TRUE" if held else "FALSE", "Handlers": handlers}
 
 
-def mc_configs(tier, light=False):
+ALL_ARITIES = tuple(range(1, 27))
+
+
+def quick_arities(seed):
+    """arities of the TLC-emitted arity table in the quick tier: fixed spread + 4 seed-chosen ones (every
+    arity 1..26 is always present among the composed shapes gen-all / gen-rot)"""
+    import random
+    fixed = [1, 2, 3, 5, 8, 13, 21, 26]
+    rest = [a for a in ALL_ARITIES if a not in fixed]
+    return tuple(fixed + random.Random(seed).sample(rest, 4))
+
+
+def mc_configs(tier, light=False, seed=1):
     """label -> (constants, kind); kind 'arity' lines feed the arity table, the others the pool"""
     if light:       # C13 stage: setup does not depend on borrows; depth 1/2 and the arity table suffice
         return [
             ("d1", mc_consts(2, maxmem=3) if tier == "quick" else mc_consts(3, maxmem=3), "mc"),
             ("hnd", mc_consts(2, maxmem=2, outer=2, inner=1, handlers=2), "mc"),
-            ("arity", mc_consts(1, arity=26, handlers=1), "arity"),
+            ("arity", mc_consts(1, arities=quick_arities(seed), handlers=1), "arity"),
         ]
     if tier == "quick":
         return [
             ("d1", mc_consts(2, maxmem=3), "mc"),                       # leaves + depth 1, <= 3 members
-            ("d2", mc_consts(2, outer=2, inner=1), "mc"),               # depth 2
+            ("d2", mc_consts(1, outer=2, inner=1), "mc"),               # depth 2 (2 resources: see hnd)
             ("held", mc_consts(2, maxmem=2, held=True), "mc"),          # somebody else holds a borrow
             ("hnd", mc_consts(2, maxmem=2, outer=2, inner=1, handlers=2), "mc"),   # custom setup handlers, depth 1 and 2
-            ("arity", mc_consts(1, arity=26, handlers=1), "arity"),     # every arity x position x kind
+            ("arity", mc_consts(1, arities=quick_arities(seed), handlers=1), "arity"),   # arity x position x kind
         ]
     return [
         ("d1", mc_consts(3, maxmem=3), "mc"),
@@ -83,12 +96,12 @@ def mc_configs(tier, light=False):
         ("held3", mc_consts(3, maxmem=2, held=True), "mc"),
         ("hnd", mc_consts(2, maxmem=3, outer=2, inner=1, handlers=2), "mc"),
         ("hnd3", mc_consts(3, maxmem=2, handlers=2), "mc"),
-        ("arity", mc_consts(2, arity=26, handlers=1), "arity"),
+        ("arity", mc_consts(2, arities=ALL_ARITIES, handlers=1), "arity"),
     ]
 
 
 def run_mc(ctx, tier, workers_each=4, light=False):
-    cfgs = mc_configs(tier, light)
+    cfgs = mc_configs(tier, light, ctx.seed)
     results = {}
 
     def one(item):
